@@ -218,8 +218,9 @@ Print Assumptions C13_every_cell_is_member.
 
 (* ---- the whole clause for operators: the formula =l o r entered over an
    h x w target (no scalar operand is an error).  The member stamped (i, j)
-   shows the scalar operator on the operands' elements at the broadcast
-   indices, #N/A outside the broadcast shape R x C *)
+   shows the scalar operator's value x on the operands' elements at the
+   broadcast indices (x itself; only the text "#EMPTY!", pycel's blank marker,
+   would be shown as 0), #N/A outside the broadcast shape R x C *)
 Theorem C13_formula_op_member : forall l o r a b R C res h w i j,
   to_nd l = Ok a -> to_nd r = Ok b -> bshape a b = Some (R, C) ->
   (scalar_like l = true -> in_error_codes l = Ok false) ->
@@ -230,7 +231,7 @@ Theorem C13_formula_op_member : forall l o r a b R C res h w i j,
   let jj := if Nat.eqb C 1 then O else pos j in
   ((ii < R)%nat /\ (jj < C)%nat ->
      exists u v x, belem a ii jj = Some u /\ belem b ii jj = Some v /\ fixup u o v = Ok x
-                   /\ cse_member h w res i j = shown x)
+                   /\ cse_member h w res i j = Ok (if is_blank x then VInt 0 else x))
   /\ (~ ((ii < R)%nat /\ (jj < C)%nat) -> cse_member h w res i j = Ok excelutil.c_NA_ERROR).
 Proof. exact formula_op_member. Qed.
 Print Assumptions C13_formula_op_member.
